@@ -295,6 +295,10 @@ def d(ck: Check) -> None:
         if isinstance(c, ast.Call) and isinstance(c.func, ast.Attribute) and c.func.attr in ("remove_node", "remove_nodes_from") and c.args:
             cn = g.cfgn(c)
             tgt = se.val(c.func.value, cn)
+            if c.func.attr == "remove_nodes_from" and isinstance(c.args[0], (ast.List, ast.Tuple, ast.Set)):
+                for x_ in c.args[0].elts:
+                    removed.append((tgt, se.val(x_, cn), se.cond(cn), cn))
+                continue
             what = se.val(c.args[0], cn)
             if c.func.attr == "remove_nodes_from":
                 what = f"elem({what})"
